@@ -705,4 +705,58 @@ theorem cnv_checked_in_bounds (m n resSize resCols resCol aSize aCols aCol bSize
     exact cnv_by_const_in_bounds n resSize resCols resCol aSize aCols aCol bSize cnvOffset tmpLen2 hn h2' h1'.1 h1'.2 htmp2
 example : okVal (cnvByConstChecked 8 1 1 1 1 1 0 1 0) = none ∧ (okVal (cnvByConstChecked 8 2 2 1 2 2 0 3 1)).isSome = true := by decide
 
+/-- **`convolution_pairwise_apply_dft`** (`col_i ≠ col_j`): `tmp.len() = 8·(a_size + b_size + min_size)` is asserted at entry -/
+theorem cnv_pairwise_in_bounds (m resSize resCols resCol aSize aCols bSize bCols colI colJ cnvOffset : Nat) (hm : m % 4 = 0)
+    (ha1 : 1 ≤ aSize) (hrc : resCol < resCols) (hia : colI < aCols) (hja : colJ < aCols) (hib : colI < bCols) (hjb : colJ < bCols) :
+    InBounds (lens4 (2 * m * resCols * resSize) (2 * m * aCols * aSize) (2 * m * bCols * bSize)
+        (aSize * 8 + bSize * 8 + 8 * min resSize (aSize + bSize - 1)))
+      (cnvPairwise m resSize resCols resCol aSize bSize colI colJ cnvOffset) := by
+  unfold cnvPairwise
+  simp only []
+  have hmr : min resSize (aSize + bSize - 1) ≤ resSize := Nat.min_le_left _ _
+  generalize hM : min resSize (aSize + bSize - 1) = minSize at *
+  refine inb_append (inb_flatMap (fun blk hblk => ?_)) (inb_map (fun j hj => ?_))
+  · have hb : blk < m / 4 := List.mem_range.mp hblk
+    have fa := fun c (hc : c < aCols) => cnv_blk_fit (m := m) (col := c) (C := aCols) (S := aSize) (blk := blk) (x := aSize * 8) hm hc hb (Nat.le_refl _)
+    have fb := fun c (hc : c < bCols) => cnv_blk_fit (m := m) (col := c) (C := bCols) (S := bSize) (blk := blk) (x := bSize * 8) hm hc hb (Nat.le_refl _)
+    refine inb_append (inb_append ?_ (conv_inb _ _ _ _ _ _ _ ha1 (by simp only [lens4]; omega) (by simp only [lens4]; omega) (by simp only [lens4]; omega)))
+      (inb_flatMap (fun k hk => ?_))
+    · refine inb_cons ?_ (inb_cons ?_ (inb_cons ?_ (inb_cons ?_ (inb_cons ?_ (inb_cons ?_ (inb_nil _))))))
+      · simp only [rd, lens4]; exact fa colI hia
+      · simp only [rd, lens4]; exact fa colJ hja
+      · simp only [wt, lens4]; omega
+      · simp only [rd, lens4]; exact fb colI hib
+      · simp only [rd, lens4]; exact fb colJ hjb
+      · simp only [wt, lens4]; omega
+    · have hk' : k < minSize := List.mem_range.mp hk
+      refine save1blk_inb _ _ _ _ ?_ (by simp only [lens4]; omega)
+      simp only [lens4]
+      have := at_fit (n := 2 * m) (j := k) (C := resCols) (c := resCol) (S := resSize) (by omega) hrc
+      omega
+  · have hj' := List.mem_range'_1.mp hj
+    simp only [wt, lens4]
+    exact at_fit (by omega) hrc
+example : InBounds (lens4 (16 * 1 * 3) (16 * 2 * 2) (16 * 2 * 2) (16 + 16 + 8 * 3)) (cnvPairwise 8 3 1 0 2 2 0 1 1) := by decide
+
+/-- **element-wise limb loops** over `at(col, j)` slices (`vec_znx_dft_add_into`/`sub`/`copy`, `svp_apply_dft_to_dft`, …):
+in bounds when the loop bound is at most both sizes, the columns are in range (asserted by `at`) **and the ring degrees
+agree** — the AVX kernels walk `res_slice.len()` elements of every operand and check equal lengths only under
+`#[cfg(debug_assertions)]` -/
+theorem limb_loop_in_bounds (nR resCols resSize resCol aCols aSize aCol lo hi : Nat) (hrc : resCol < resCols) (hac : aCol < aCols)
+    (hhr : hi ≤ resSize) (hha : hi ≤ aSize) :
+    InBounds (lens4 (nR * resCols * resSize) (nR * aCols * aSize) 0 0) (limbLoop nR resCols resCol nR aCols aCol lo hi) := by
+  unfold limbLoop
+  refine inb_flatMap (fun j hj => ?_)
+  have hj' := List.mem_range'_1.mp hj
+  refine inb_cons ?_ (inb_cons ?_ (inb_nil _))
+  · simp only [wt, lens4]; exact at_fit (by omega) hrc
+  · simp only [rd, lens4]; exact at_fit (by omega) hac
+example : InBounds (lens4 (8 * 2 * 3) (8 * 1 * 2) 0 0) (limbLoop 8 2 1 8 1 0 0 2) := by decide
+
+/-- without equal ring degrees (an operand allocated for `n = 8` handed to an `n = 16` result; only a debug assertion
+objects) the kernel reads 16 elements from an 8-element limb, past the operand's buffer on its last limb.
+Not reachable in a build with debug assertions (the harness profile); reachable through the safe API without them. -/
+theorem limb_loop_ring_degree_counterexample :
+    ¬ InBounds (lens4 (16 * 1 * 1) (8 * 1 * 1) 0 0) (limbLoop 16 1 0 8 1 0 0 1) := by decide
+
 end C17
